@@ -5,7 +5,7 @@ BOUNDS = ("one operation (register method / async / blocking / subscription / su
           "0..2 successful registrations; every method name involved is an arbitrary text - equal to or different from any other name, solver-chosen")
 EXPLANATION = ("Symbolic execution of the rustc MIR of rpc_module.rs (Methods::{verify_method_name,verify_and_insert,mut_callbacks,merge,method_with_name}, "
                "RpcModule::register_*/register_alias/remove_method/clone) with the callbacks table as an association list behind a copy-on-write Arc; z3 decides "
-               "that a failing operation leaves every binding as it was, a succeeding one adds exactly the named bindings to the given handler, and dispatch reads the binding.")
+               "that a module clone and its original answer lookups identically until one is mutated and independently afterwards, that a failing operation leaves every binding as it was, a succeeding one adds exactly the named bindings to the given handler, and dispatch reads the binding.")
 TRUSTED = ["rustc MIR dump", "z3 / cvc5", "HashMap / Arc::make_mut contracts (coverage.models)"]
 OUTSIDE = ["running async / subscription callbacks", "the Subscribers table shared between module clones"]
 ASSUMPTIONS = []
